@@ -48,6 +48,18 @@ def versionInfo (dir : Dir) (tables : List String) : Except PyErr (Dict × Optio
       ("revdate", ← getKey bs "revision_date"), ("elements", .arr ((sortNum (Dict.keys els)).map .str))]
     pure (Dict.set acc.1 ver rec_, some (acc.2.1.getD ft), some bs)) ([], none, none)
 
+/-- the record of one name of a basis: everything but `display_name` / `other_names` is common to all its names -/
+def commonRecord (desc : J) (latest : String) (tags : J) (base rel : String) (fam role ft aux : J) (vinfo : Dict)
+    (disp : String) (others : List String) : J := .obj [
+  ("display_name", .str disp), ("other_names", .arr (others.map .str)), ("description", desc),
+  ("latest_version", .str latest), ("tags", tags), ("basename", .str base),
+  ("relpath", .str rel), ("family", fam), ("role", role), ("function_types", ft),
+  ("auxiliaries", aux), ("versions", .obj vinfo)]
+
+/-- one index entry per name listed in the metadata file (`common_md.copy()` with the two name fields set) -/
+def aliasEntries (names : List String) (mk : String → List String → J) : List (String × J) :=
+  names.map fun n => (transformName n, mk n (names.erase n))
+
 /-- the records contributed by one `.metadata.json` file -/
 def entriesOf (dir : Dir) (tables : List String) (metaPath : String) : Except PyErr (List (String × J)) := do
   let md ← readBasis dir metaPath
@@ -64,12 +76,7 @@ def entriesOf (dir : Dir) (tables : List String) (metaPath : String) : Except Py
     let fam ← getKey bs "family"
     let role ← getKey bs "role"
     let aux ← getKey bs "auxiliaries"
-    let common (disp : String) (others : List String) : J := .obj [
-      ("display_name", .str disp), ("other_names", .arr (others.map .str)), ("description", desc),
-      ("latest_version", .str latest), ("tags", tags), ("basename", .str (String.ofList (baseFile.toList.dropLast))),
-      ("relpath", .str baseRel), ("family", fam), ("role", role), ("function_types", ft),
-      ("auxiliaries", aux), ("versions", .obj vinfo)]
-    pure (names.map fun n => (transformName n, common n (names.erase n)))
+    pure (aliasEntries names (commonRecord desc latest tags (String.ofList (baseFile.toList.dropLast)) baseRel fam role ft aux vinfo))
   | _, _, _ => throw PyErr.value      -- `max()` of an empty sequence
 
 def isMeta (p : String) : Bool := !(special.contains (basename p)) && endsWith p ".metadata.json"
